@@ -145,6 +145,46 @@ Theorem C20_client_login_records_hide_password : forall prefix k user p1 p2 acco
 Proof. exact client_login_records_hide_password. Qed.
 Print Assumptions C20_client_login_records_hide_password.
 
+(* Client.login as the PROGRAM regenerated from client.py (Gen.Logging.login_program: the USER
+   command, `while code.matches("33x")`, censor_after as the loop-carried variable it is in Python
+   with its reset at the top of every iteration, one branch per reply code) run against EVERY
+   server: `lines` is whatever the peer sends, line by line -- any reply codes in any order (230,
+   331, 332 any number of times and in any interleaving, 530, 4xx, 33x other than 331/332), multi-line
+   replies and free continuation lines (parse_response of Model/Framing.v), garbage, early EOF.
+   The records of logger aioftp.client are equal for two passwords of equal length; user name and
+   account are arbitrary (and are logged in clear: the property is about the password). *)
+Theorem C20_client_login_hides_password_any_server : forall user p1 p2 account lines,
+  length p1 = length p2 ->
+  client_login_run login_program user p1 account lines
+  = client_login_run login_program user p2 account lines.
+Proof. exact inst_client_login_hides_password. Qed.
+Print Assumptions C20_client_login_hides_password_any_server.
+
+(* the same for every login program (not only today's) that satisfies the computable condition
+   login_prog_ok: each password-bearing branch binds censor_after, in that branch, to the length
+   of its own non-empty literal prefix, and the command sent before the loop carries no password *)
+Theorem C20_login_program_condition_suffices : forall P user p1 p2 account lines,
+  login_prog_ok P = true -> length p1 = length p2 ->
+  client_login_run P user p1 account lines = client_login_run P user p2 account lines.
+Proof. exact client_login_run_hides_password. Qed.
+Print Assumptions C20_login_program_condition_suffices.
+
+(* closed obligation on today's source: login() has the translated shape and satisfies the condition *)
+Theorem C20_login_program_ok : login_program_translated && login_prog_ok login_program = true.
+Proof. exact login_program_ok. Qed.
+Print Assumptions C20_login_program_ok.
+
+(* the condition is not vacuous: a login whose censor_after is bound once before the loop and
+   carried through the iterations (no reset, no binding in the PASS branch) fails it and does log
+   the password when USER is answered 332 and ACCT 331 *)
+Theorem C20_carried_censor_leaks :
+  login_prog_ok carried_censor_prog = false /\
+  exists p1 p2 lines, length p1 = length p2 /\
+    client_login_run carried_censor_prog [117] p1 [97] lines
+    <> client_login_run carried_censor_prog [117] p2 [97] lines.
+Proof. exact carried_censor_leaks. Qed.
+Print Assumptions C20_carried_censor_leaks.
+
 (* ---------------------------------------------------------------- both loggers, one login *)
 Theorem C20_login_session_hides_password : forall censor T users V k host port user p1 p2 account,
   lower V = VERB_PASS -> In VERB_PASS censor ->
@@ -220,6 +260,17 @@ Example C20_nonvacuous_server :
       [50; 51; 48; 32; 110; 111; 114; 109; 97; 108; 32; 108; 111; 103; 105; 110];
       [99; 108; 111; 115; 105; 110; 103; 32; 99; 111; 110; 110; 101; 99; 116; 105; 111; 110; 32; 102; 114; 111; 109; 32; 104; 58; 49] ].
 Proof. vm_compute. repeat split. congruence. Qed.
+
+(* USER -> 332, ACCT -> 331, PASS -> 230-/230 (two-line reply): the computed client transcript *)
+Example C20_nonvacuous_acct_then_pass :
+  map lr_message
+      (client_login_run login_program [117] [37; 115; 32; 233] [97; 99]
+         [[51; 51; 50; 32; 97; 13; 10]; [51; 51; 49; 32; 112; 13; 10];
+          [50; 51; 48; 45; 104; 105; 13; 10]; [50; 51; 48; 32; 111; 107; 13; 10]])
+  = [ [85; 83; 69; 82; 32; 117]; [51; 51; 50; 32; 97];
+      [65; 67; 67; 84; 32; 97; 99]; [51; 51; 49; 32; 112];
+      [80; 65; 83; 83; 32; 42; 42; 42; 42]; [50; 51; 48; 45; 104; 105]; [50; 51; 48; 32; 111; 107] ].
+Proof. vm_compute. reflexivity. Qed.
 
 Example C20_nonvacuous_client :
   lr_message (client_login_pass_log login_pass_prefix login_pass_censor_after [37; 115; 32; 233])
